@@ -778,6 +778,13 @@ def checkSettlement (h : HCtx) (p c : Obs) : CM Unit := do
                 if alloc = 0 then
                   if refund ≠ reserved then
                     viol "C04" "price-bounds:loser-refund" s!"auction {i}: u{u} won nothing, reserved {reserved}, refunded {refund}"
+                    -- C03's last sentence: "if no bid price qualifies, or the qualifying demand is
+                    -- zero, nothing is sold and EVERYTHING IS REFUNDED"
+                    let nothingSold : Bool := match pstar with
+                      | none => true
+                      | some x => bidders.all (fun w => cappedDemand pv.bids pv.allowed w x == 0)
+                    if nothingSold then
+                      viol "C03" "clearing-none-refund" s!"auction {i}: nothing qualifies (clearing price {pstar}), u{u} reserved {reserved} and was refunded {refund}"
                 else
                   match pstar with
                   | none => pure ()
